@@ -5,6 +5,8 @@ package main
 import (
 	"fmt"
 	"go/constant"
+
+	"golang.org/x/tools/go/ssa"
 	"go/types"
 	"math/big"
 	"strconv"
@@ -28,6 +30,8 @@ type SpecCtx struct {
 	pkg  *types.Package
 	// bound quantifier variables shadow locals
 	bound    map[string]bool
+	srcArgs  map[string]ssa.Value // call-site SSA arguments (for reach())
+	atReturn bool
 	hdrBlock interface{}
 }
 
@@ -215,6 +219,13 @@ func (c *SpecCtx) eval(x Expr) (Val, types.Type) {
 				if gv, ok := o.(*types.Var); ok {
 					return c.globalVar(gv)
 				}
+			}
+		}
+		if c.f != nil && c.hdrBlock != nil {
+			// a local that has no dominating definition here (e.g. an early return before its
+			// declaration): it denotes an arbitrary value
+			if t := c.f.localType(x.Name); t != nil {
+				return e.freshVal(t, "undef."+x.Name, c.st.Alloc), t
 			}
 		}
 		c.fail("unknown identifier %s", x.Name)
@@ -892,6 +903,34 @@ func (c *SpecCtx) locations(x Expr) []assignTarget {
 			}
 			out = append(out, assignTarget{comp: e.mapHasComp(mt), ref: v.(Term)}, assignTarget{comp: e.mapLenComp(mt), ref: v.(Term)})
 			return out
+		case "reach":
+			// everything reachable from the pointer held by an interface-typed argument, by the
+			// static type at the call site (reflection-based decoders write there)
+			id, ok := x.Args[0].(*EIdent)
+			if !ok || c.srcArgs == nil || c.srcArgs[id.Name] == nil {
+				return []assignTarget{{whole: true}}
+			}
+			src := c.srcArgs[id.Name]
+			var T types.Type
+			if mi, ok := src.(*ssa.MakeInterface); ok {
+				T = mi.X.Type()
+			} else if _, isIface := src.Type().Underlying().(*types.Interface); !isIface {
+				T = src.Type()
+			}
+			if T == nil {
+				return []assignTarget{{whole: true}}
+			}
+			names := map[string]bool{}
+			if !e.typeReach(T, names, map[string]bool{}, true) {
+				return []assignTarget{{whole: true}}
+			}
+			var out []assignTarget
+			for n := range names {
+				if cp := e.comps[n]; cp != nil {
+					out = append(out, assignTarget{comp: cp, whole: true})
+				}
+			}
+			return out
 		case "all":
 			v, t := c.eval(x.Args[0])
 			var ref Term
@@ -1042,4 +1081,76 @@ func (c *SpecCtx) allFieldTargets(ref Term, S types.Type) []assignTarget {
 		out = append(out, c.fieldTargets(ref, S, st.Field(i).Name(), false)...)
 	}
 	return out
+}
+
+// typeReach collects (and creates) the components that hold memory reachable from a value of
+// type t. top: the value itself is not memory (only what it points to).
+func (e *Enc) typeReach(t types.Type, out map[string]bool, seen map[string]bool, top bool) (ok bool) {
+	defer func() {
+		if r := recover(); r != nil {
+			if _, isU := r.(unsupported); !isU {
+				panic(r)
+			}
+			ok = false
+		}
+	}()
+	k := typeKey(t)
+	if !top {
+		if seen[k] {
+			return true
+		}
+		seen[k] = true
+	}
+	switch u := t.Underlying().(type) {
+	case *types.Pointer:
+		el := u.Elem()
+		if e.isBigInt(el) {
+			out["bigval"] = true
+			e.bigvalComp()
+			return true
+		}
+		return e.memReach(el, out, seen)
+	case *types.Slice:
+		return e.memReach(u.Elem(), out, seen)
+	case *types.Map:
+		for _, l := range e.leaves(u.Elem()) {
+			out[e.mapValComp(u, l).Name] = true
+		}
+		out[e.mapHasComp(u).Name] = true
+		out[e.mapLenComp(u).Name] = true
+		return e.typeReach(u.Elem(), out, seen, false)
+	case *types.Struct:
+		for i := 0; i < u.NumFields(); i++ {
+			if !e.typeReach(u.Field(i).Type(), out, seen, false) {
+				return false
+			}
+		}
+	}
+	return true
+}
+
+// memReach: memory holding a value of type t, and what it reaches.
+func (e *Enc) memReach(t types.Type, out map[string]bool, seen map[string]bool) bool {
+	if st := structOf(t); st != nil {
+		for i := 0; i < st.NumFields(); i++ {
+			ft := st.Field(i).Type()
+			if e.isStructT(ft) {
+				if !e.memReach(ft, out, seen) {
+					return false
+				}
+				continue
+			}
+			for _, l := range e.leaves(ft) {
+				out[e.fieldComp(t, i, l).Name] = true
+			}
+			if !e.typeReach(ft, out, seen, false) {
+				return false
+			}
+		}
+		return true
+	}
+	for _, l := range e.leaves(t) {
+		out[e.cellComp(t, l).Name] = true
+	}
+	return e.typeReach(t, out, seen, false)
 }
